@@ -7,6 +7,7 @@ import (
 func init() { gens["C10"] = genC10 }
 
 func genC10(tier string, r *rng, emit func(string)) {
+	genXKinds("C10", emit)
 	recycleMotifs(emit) // results built on recycled structs (Repeat, Stack, Concat among the follow-ups)
 	thorough := tier == "thorough"
 	n := 9000
